@@ -46,12 +46,12 @@ pub fn kmer(seed: u64, runs: usize, maxlen: usize) {
     println!("{}", json!({"ev":"eof"}));
 }
 
-/// long sequence: positions beyond 2^16. dense: clean bases with an ambiguous byte every few thousand; otherwise 3000 clean
+/// long sequence: positions beyond 2^16. dense: clean bases with an ambiguous byte every few thousand; otherwise 1500 clean
 /// bases, then ambiguous bytes with short clean islands up to position 66 000, then clean bases again to the end
 fn long_seq(rng: &mut Rng, n: usize, dense: bool) -> Vec<u8> {
     (0..n)
         .map(|x| {
-            let amb = if dense { x % 4099 == 4098 || x == 65_537 } else { x >= 3000 && x < 66_000 && x % 997 > 5 };
+            let amb = if dense { x % 4099 == 4098 || x == 65_537 } else { x >= 1500 && x < 66_000 && x % 997 > 5 };
             if amb { *rng.pick(b"N-*.") } else { *rng.pick(b"ACGTacgtUu") }
         })
         .collect()
